@@ -484,6 +484,11 @@ class Inotify:
         old_path = self._path_for_wd.get(wd)
         if old_path is not None and old_path != path and self._wd_for_path.get(old_path) == wd:
             del self._wd_for_path[old_path]
+        if old_path is not None:
+            # A directory that had left the tree is back (under whatever name): its watches
+            # must survive the expiry of the unmatched IN_MOVED_FROM it left with.
+            for cookie in [c for c, moved_wd in self._moved_from_wds.items() if moved_wd == wd]:
+                del self._moved_from_wds[cookie]
         self._wd_for_path[path] = wd
         self._path_for_wd[wd] = path
         return wd
